@@ -41,7 +41,10 @@ func ignoreRules(ignoredRules *ignoredRules, rules []Rule) {
 		return
 	}
 
-	ignoredRules.all = false
+	// All rules are ignored already, naming some of them does not narrow it
+	if ignoredRules.all {
+		return
+	}
 	if ignoredRules.rules == nil {
 		ignoredRules.rules = make(map[Rule]bool)
 	}
